@@ -258,6 +258,102 @@ def minmaxLeafDist (t : T) : Except Err (Frac × Frac) :=
     | [] => .error .value
     | x :: xs => .ok (minList x xs, maxList x xs)
 
+/-! ## list forms: `node_ages`, `internal_node_ages`, `coalescence_intervals`, `calc_node_root_distances`,
+`max_distance_from_root`, `treemeasure.node_ages / node_depths / coalescence_ages` -/
+
+def insAsc (x : Frac) : List Frac → List Frac
+  | [] => [x]
+  | y :: ys => if Frac.le x y then x :: y :: ys else y :: insAsc x ys
+/-- `list.sort()` / `sorted(...)` of numbers: ascending -/
+def sortAsc (l : List Frac) : List Frac := l.foldr insAsc []
+
+/-- `Tree.node_ages(..., internal_only)` and `Tree.internal_node_ages(...)` (= `internal_only` true): the list returned by
+    `calc_node_ages`, sorted in place -/
+def nodeAges (cfg : Cfg) (internalOnly : Bool) (t : T) : Except Err (List Frac) :=
+  match calcNodeAges cfg t with
+  | .error e => .error e
+  | .ok a => .ok (sortAsc (a.returned internalOnly))
+
+/-- `d - ages[i]` for `i, d in enumerate(ages[1:])` -/
+def diffsFrom (prev : Frac) : List Frac → List Frac
+  | [] => []
+  | a :: as => (a - prev) :: diffsFrom a as
+
+/-- `Tree.coalescence_intervals()`: `ages = self.node_ages()` (all defaults), then `ages[0]` followed by the consecutive
+    differences -/
+def coalIntervals (t : T) : Except Err (List Frac) :=
+  match nodeAges ⟨some defaultPrec, false, false⟩ false t with
+  | .error e => .error e
+  | .ok [] => .error .value          -- `ages[0]` on an empty list: a tree has at least its seed node
+  | .ok (a :: as) => .ok (a :: diffsFrom a as)
+
+/-- the list `calc_node_root_distances(return_leaf_distances_only)` returns: pre-order, leaves only or every node -/
+def rootDistList (leafOnly : Bool) (t : T) : Except Err (List Frac) :=
+  match rootDepths t with
+  | .error e => .error e
+  | .ok r => .ok ((r.filter (fun p => !leafOnly || p.2.1)).map (·.2.2))
+
+/-- `Tree.max_distance_from_root()`: `max(self.calc_node_root_distances())`, i.e. over the leaves -/
+def maxDistFromRoot (t : T) : Except Err Frac :=
+  match rootDistList true t with
+  | .error e => .error e
+  | .ok [] => .error .value
+  | .ok (x :: xs) => .ok (maxList x xs)
+
+/-- `treemeasure.node_depths(tree, is_internal_only)`: sorted values of `resolve_node_depths()` -/
+def tmNodeDepths (internalOnly : Bool) (t : T) : Except Err (List Frac) :=
+  match rootDepths t with
+  | .error e => .error e
+  | .ok r => .ok (sortAsc ((r.filter (fun p => !internalOnly || !p.2.1)).map (·.2.2)))
+
+/-- `treemeasure.node_ages(tree, is_internal_only)` (`coalescence_ages` = internal only): sorted values of
+    `resolve_node_ages()` -/
+def tmNodeAges (internalOnly : Bool) (t : T) : Except Err (List Frac) :=
+  match rootDepths t with
+  | .error e => .error e
+  | .ok [] => .ok []
+  | .ok (x :: xs) =>
+    let m := maxList x.2.2 (xs.map (·.2.2))
+    .ok (sortAsc (((x :: xs).filter (fun p => !internalOnly || !p.2.1)).map (fun p => m - p.2.2)))
+
+/-! ## `Node.distance_from_root`, `Node.distance_from_tip` -/
+
+mutual
+/-- `Node.distance_from_root()` of every node, pre-order.  `anc` = sum of the non-`None` lengths of the edges of all
+    ancestors, the SEED'S OWN EDGE INCLUDED (the code walks `parent_node` up to and including the node without parent);
+    `plen` = the parent's edge length.  A node without length answers with its parent's length (`float(None)`: TypeError);
+    the seed answers with its own length, `None` = 0. -/
+def distRoot (isRoot : Bool) (anc : Frac) (plen : Option Frac) : T → List (Nat × Except Err Frac)
+  | .node i _ l _ cs =>
+    let v : Except Err Frac :=
+      match l with
+      | some l => .ok (if isRoot then l else l + anc)
+      | none => if isRoot then .ok Frac.zero else
+          match plen with
+          | some pl => .ok pl
+          | none => .error .type
+    (i, v) :: distRootL (olen l + anc) l cs
+def distRootL (anc : Frac) (plen : Option Frac) : List T → List (Nat × Except Err Frac)
+  | [] => []
+  | c :: cs => distRoot false anc plen c ++ distRootL anc plen cs
+end
+
+def distFromRoot (t : T) : List (Nat × Except Err Frac) := distRoot true Frac.zero none t
+
+mutual
+/-- `Node.distance_from_tip()` on a node without cached `_distance_from_tip` values: the largest distance to a tip
+    below, a `None` length read as 0 -/
+def tipMax : T → Frac
+  | .node _ _ _ _ [] => Frac.zero
+  | .node _ _ _ _ (c :: cs) => maxList (tipMax c + olen c.len) (tipMaxSums cs)
+def tipMaxSums : List T → List Frac
+  | [] => []
+  | c :: cs => (tipMax c + olen c.len) :: tipMaxSums cs
+end
+
+/-- `distance_from_tip()` of every node, pre-order -/
+def distFromTip (t : T) : List (Nat × Frac) := t.nodes.map (fun v => (v.id, tipMax v))
+
 /-! ## `Tree.num_lineages_at` -/
 
 /-- the test applied to a non-root node at root distance `rd` whose parent is at `prd` -/
